@@ -1,4 +1,4 @@
-/* F-FOOTER-REQUIRED witness: parquet_parse_file_metadata (src/thrift/parquet_types.c) accepts a FileMetaData struct that lacks its
+/* F-FOOTER-NO-REQUIRED witness: parquet_parse_file_metadata (src/thrift/parquet_types.c) accepts a FileMetaData struct that lacks its
  * required fields (version, schema, num_rows, row_groups) — even a lone Thrift STOP byte — so every carquet_reader_open* opens such
  * a "file" as a valid table with 0 rows and 0 columns.  Consequence for C18: carquet's own writer produces files with proper
  * prefixes of that form.  An INT32 REQUIRED column holding ..., 0, 1, 0x31524150 ("PAR1"), ... is stored PLAIN as
